@@ -114,8 +114,10 @@ type Sched struct {
 	TimerFires int
 	// EarlyTimers: offer "fire the earliest timer now" as the last alternative of every thread choice.
 	EarlyTimers bool
-	Labels      bool
-	Log         []string // event log filled by Logf when Labels
+	// FreePerm: picks of Perm (e.g. the random peer order of a sync) are configuration choices (cost 0)
+	FreePerm bool
+	Labels   bool
+	Log      []string // event log filled by Logf when Labels
 
 	Watchdog time.Duration
 	running  int
@@ -310,6 +312,7 @@ type Options struct {
 	Until       time.Time // virtual-time horizon for firing timers (zero: no limit)
 	Start       time.Time // virtual start time (zero: Epoch)
 	EarlyTimers bool
+	FreePerm    bool
 	Labels      bool
 	Watchdog    time.Duration
 }
@@ -317,7 +320,7 @@ type Options struct {
 // Run executes main under a fresh scheduler and returns it after teardown.
 func Run(o Options, main func()) *Sched {
 	s := &Sched{toSched: make(chan *thread), closed: map[uintptr]bool{}, devs: o.Devs, MaxSteps: o.MaxSteps,
-		now: o.Start, Until: o.Until, EarlyTimers: o.EarlyTimers, Labels: o.Labels, Watchdog: o.Watchdog, running: -1}
+		now: o.Start, Until: o.Until, EarlyTimers: o.EarlyTimers, FreePerm: o.FreePerm, Labels: o.Labels, Watchdog: o.Watchdog, running: -1}
 	if s.now.IsZero() {
 		s.now = Epoch
 	}
@@ -728,7 +731,11 @@ func Perm(n int) []int {
 	for len(rest) > 0 {
 		k := 0
 		if s != nil {
-			k = s.choose('p', len(rest), false, func() string { return "perm" })
+			kind := byte('p')
+			if s.FreePerm {
+				kind = 'f'
+			}
+			k = s.choose(kind, len(rest), false, func() string { return "perm" })
 		}
 		out = append(out, rest[k])
 		rest = append(rest[:k], rest[k+1:]...)
@@ -938,6 +945,7 @@ func WaitOp(cnt *int64, wait func()) {
 // ---- virtual time ----
 
 type vtimer struct {
+	off    time.Duration // offset of the clock that created the timer: values delivered are in that clock's time
 	at     time.Time
 	seq    int
 	ch     chan time.Time
@@ -997,7 +1005,7 @@ func (s *Sched) fireNext() bool {
 		return true
 	}
 	select {
-	case t.ch <- s.now:
+	case t.ch <- s.now.Add(t.off):
 	default:
 	}
 	if t.period > 0 {
